@@ -156,7 +156,16 @@ def replay(case):
     why = value_changed(x0snap)
     if why:
         out.append(('operand_changed', 'the initial value was modified by a splitting integrator (%s)' % why))
+    if np.linalg.norm(Ss[d - 1] - Ss[d - 1].T) > 0.5:
+        out.append(('@nonsym', 'single-site generator of the last site is not symmetric'))
     return out
+
+
+def post_hook(artifacts, rep, tier):
+    n = sum(1 for sig, _ in artifacts if sig == '@nonsym')
+    if n == 0:
+        raise RuntimeError('no case with a non-symmetric single-site generator at the last site (vacuous islands)')
+    return dict(cases_with_nonsymmetric_last_site_generator=n)
 
 
 def runs(tier):
